@@ -143,6 +143,19 @@ CLAIMED = {
         'model; closure/partition of get_references (open item F7), rename-back identity and behaviour preservation '
         'are not decided.',
         'contract-based deductive verification (PyVC loop invariants over maps of maps, z3/cvc5)', 'DESIGN.md 6/C05'),
+    'C12': (
+        'Deductive effect/frame contracts along every chain that can reach an execution primitive: access.load_module '
+        '(the only real import) restores sys.path on every exit incl. arbitrary exceptions of the imported code; '
+        '_load_builtin_module establishes the callee precondition "only entries of the environment\'s base sys.path '
+        'unless load_unsafe_extensions" (call-pre obligation, filter comprehension model); import_module reaches only '
+        '{find, parse, restricted builtin loader} whatever the names, auto_import_modules included; get_module_info '
+        'restores sys.path; base sys.path strips ""; inventories (AST, whole jedi/): no import/exec/spawn/unpickle '
+        'primitive and no write to sys.path/sys.modules/os.environ/cwd outside the registered, contracted sites; '
+        'forwarding chain, parse-only loading of python files and the helper start command decided on the AST.',
+        'Trusted: __import__ / find_spec contracts, warnings.warn does not raise; interpreter start-up (site, .pth), '
+        'third-party meta-path finders and plugin read-only contracts are not decided.',
+        'contract-based deductive verification (PyVC effects, frames on exceptional exits) + AST inventories',
+        'DESIGN.md 6/C12'),
 }
 
 NOT_APPLICABLE = {
